@@ -1,6 +1,7 @@
 package rules
 
 import (
+	"fmt"
 	"go/ast"
 	"go/token"
 	"go/types"
@@ -31,10 +32,14 @@ func c14(c *core.Ctx) {
 
 	// every close(x.ready) / close(x.done) in the package
 	readyF := p.MustField(pkgLock, "caller", "ready")
-	doneF := p.MustField(pkgLock, "caller", "done")
+	// the termination channel of the per-lock watchdog goroutine; absent when the TTL is a time.AfterFunc timer
+	doneF := core.StructFields(mustStruct(p, pkgLock, "caller"))["done"]
 	idF := p.MustField(pkgLock, "caller", "id")
 	rGrant := c.Rule("C14.grant", "close(ready) (the grant) happens only under queue.mu and only for the queue head: the caller just appended to a queue that was empty, or callers[0] after the previous head was removed and the queue is non-empty", 2)
 	rDone := c.Rule("C14.done", "close(done) happens exactly at the removal of that caller, under queue.mu", 1)
+	if doneF == nil {
+		rDone.Ok(pkgLock+".caller:no-done-channel", token.NoPos, "callers carry no watchdog termination channel")
+	}
 	rOwner := c.Rule("C14.owner", "a caller is removed from the queue only on the branch where its id equals the id argument; enqueue appends at the tail", 2)
 	for _, f := range p.FuncsIn(pkgLock) {
 		if f.Decl.Body == nil {
@@ -56,7 +61,7 @@ func c14(c *core.Ctx) {
 					return
 				}
 				fld := core.FieldOf(info, call.Args[0])
-				if fld != readyF && fld != doneF {
+				if fld == nil || (fld != readyF && fld != doneF) {
 					return
 				}
 				c.Touch(f)
@@ -269,6 +274,22 @@ func c14(c *core.Ctx) {
 						})
 					}
 					timerFromTTL, timerCaseRemoves, doneCase := false, false, false
+					// alternative shape: time.AfterFunc(ttl, func() { remove(own id) }) - no goroutine is parked
+					afterFunc := false
+					for _, st := range cc.Body {
+						core.Calls(st, false, func(call *ast.CallExpr) {
+							if core.IsCallTo(info, call, "time.AfterFunc") && len(call.Args) == 2 && core.ObjOf(info, call.Args[0]) == ttlParam {
+								if l, ok := core.Unparen(call.Args[1]).(*ast.FuncLit); ok && removesOwn(l.Body) {
+									afterFunc = true
+								}
+							}
+						})
+					}
+					if afterFunc {
+						rTTL.Ok(lockFn.Key+":ttl-watchdog", cc.Pos(), "time.AfterFunc(ttl) removes own ID")
+						rTTL.Ok(lockFn.Key+":watchdog-stops-on-done", cc.Pos(), "timer callback: nothing parked")
+						continue
+					}
 					if lit != nil {
 						var timerObj types.Object
 						ast.Inspect(lit.Body, func(x ast.Node) bool {
@@ -289,7 +310,7 @@ func c14(c *core.Ctx) {
 										if id, ok := y.(*ast.Ident); ok && timerObj != nil && info.Uses[id] == timerObj {
 											usesTimer = true
 										}
-										if s, ok := y.(*ast.SelectorExpr); ok && core.FieldOf(info, s) == doneF {
+										if s, ok := y.(*ast.SelectorExpr); ok && doneF != nil && core.FieldOf(info, s) == doneF {
 											usesDone = true
 										}
 										return true
@@ -553,5 +574,70 @@ func c28(c *core.Ctx) {
 		}
 		r.Check(deletes > 0, pkgLock+".lock."+fld.Name(), insPos, "has removal sites",
 			"per-key entries are inserted into lock."+fld.Name()+" but never removed: memory grows with the number of distinct keys ever locked")
+		if deletes == 0 {
+			continue
+		}
+		// every release path removes the entry: each body (function or function literal) that takes a
+		// caller out of a queue (queue.remove) after the entry may have been inserted also deletes it
+		removeFn := c.Fn(pkgLock + ".queue.remove")
+		isIns := func(a core.Access) bool {
+			switch a.Form {
+			case "method:Store", "method:LoadOrStore", "elem", "method:Swap":
+				return true
+			}
+			return false
+		}
+		isDel := func(a core.Access) bool {
+			switch a.Form {
+			case "method:Delete", "method:LoadAndDelete", "method:CompareAndDelete", "delete", "method:Clear":
+				return true
+			}
+			return false
+		}
+		for _, f := range p.FuncsIn(pkgLock) {
+			if f.Decl.Body == nil || f == removeFn {
+				continue
+			}
+			fi := f.Info()
+			for bi, body := range core.Bodies(f.Decl) {
+				var removes []*ast.CallExpr
+				core.Calls(body, false, func(call *ast.CallExpr) {
+					if core.IsWsCallTo(fi, call, removeFn.Key) {
+						removes = append(removes, call)
+					}
+				})
+				if len(removes) == 0 {
+					continue
+				}
+				var ins, del []core.Access
+				for _, a := range core.Accesses(fi, body, map[*types.Var]bool{fld: true}, false) {
+					if isIns(a) {
+						ins = append(ins, a)
+					}
+					if isDel(a) {
+						del = append(del, a)
+					}
+				}
+				bfl := core.NewFlow(p, fi, body)
+				for ri, rm := range removes {
+					if len(ins) > 0 {
+						// a removal that cannot follow the insertion in this body (another select branch) has nothing to delete
+						after := false
+						for _, in := range ins {
+							if li, ok := bfl.Locate(in.Node); ok {
+								if r2, _ := bfl.CanReach(li, nil, nil, core.ContainsNode(rm)); r2 {
+									after = true
+								}
+							}
+						}
+						if !after {
+							continue
+						}
+					}
+					construct := fmt.Sprintf("%s:body%d:remove#%d:%s", f.Key, bi, ri, fld.Name())
+					r.Check(len(del) > 0, construct, rm.Pos(), "release path also deletes the entry", "a caller is taken out of its queue here (release by "+map[bool]string{true: "a function literal (timer / watchdog)", false: "this function"}[bi > 0]+") but its entry in lock."+fld.Name()+" is not deleted on this path: every lock that ends this way leaves an entry behind, the map grows with the number of acquisitions")
+				}
+			}
+		}
 	}
 }
